@@ -275,6 +275,7 @@ func c16Conc(c *Ctx, name string, b vsched.Bounds) Sched {
 		Name:   name,
 		Bounds: b,
 		Setup: func() ([]func(), func(*vsched.Exec) *vsched.Violation, func() string) {
+			vsched.IOPoints = true // the real proxy is in the loop: its hand-over to the network is a scheduling point
 			if origin == nil {
 				// no keep-alive: every execution builds new upstream objects (new transports); idle connections
 				// would otherwise pile up until the file-descriptor limit is reached
